@@ -212,6 +212,10 @@ def subspaces(tier):
                         yield {'k': 'shape', 'shape': [kindn] * n, 'fault': kind, 'pos': 2, 'cont': 'none', 'opts': o}
     subs.append(('deep-chains', deep()))
 
+    # several sources in one run, a faulty line in each: every message reaches the chosen channel with its own file and line
+    subs.append(('several-sources', [{'k': 'multi', 'n': n, 'opts': o, 'kind': kind} for n in (2, 3) for kind in ('unknown', 'range', 'warn')
+                                     for o in ([], ['-gnuerrors'], ['-E', 'err.log'], ['-E', 'err.log', '-gnuerrors'], ['-E', '!1'], ['-x', '-E', 'err.log'])]))
+
     def undef():
         for k in range(0, D + 1):
             for s in itertools.product(KINDS, repeat=k):
@@ -236,13 +240,44 @@ def shp(shape, sep):
 
 
 def describe(case):
+    if case['k'] == 'multi':
+        return case
     if case['k'] == 'expect':
         return 'expect %s ; provoked %s' % (case['ann'], case['prov'])
     return '%s fault %s pos %s cont %s opts %s%s%s' % (shp(case['shape'], '>'), case.get('fault', 'undef'), case['pos'], case.get('cont'), case.get('opts'),
                                                    ' (files end without newline)' if case.get('nonl') else '', ' (long include names)' if case.get('long') else '')
 
 
+def ev_multi(case):
+    core.fresh()
+    stmt = {'unknown': '\tfoo', 'range': '\tlda #1000', 'warn': '\twarning "w"'}[case['kind']]
+    want = []
+    names = []
+    for i in range(case['n']):
+        lines = ['\tcpu 6502'] + ['\tnop'] * (i + 1) + [stmt, '\tnop']
+        core.put('s%d.asm' % i, '\n'.join(lines) + '\n')
+        names.append('s%d.asm' % i)
+        want.append(('s%d.asm' % i, i + 3))
+    o = core.run('asl', ['-q'] + case['opts'] + names)
+    d = 'asl %s %s  (%s on line i+3 of source i)' % (' '.join(case['opts']), ' '.join(names), stmt.strip())
+    ck = core.crashkind(o)
+    if ck:
+        return core.R(False, ck, 'crash/' + ck, '%s on %s' % (ck, d))
+    opts = case['opts']
+    if '-E' in opts:
+        t = opts[opts.index('-E') + 1]
+        ch = o.out.decode('latin-1') if t == '!1' else (core.get(t) or b'').decode('latin-1')
+    else:
+        ch = o.err.decode('latin-1')
+    got = sorted(set((m.group(1), int(m.group(2))) for m in re.finditer(r'(?m)^(?:> > > )?(s\d\.asm)[(:](\d+)', ch)))
+    if got != sorted(want):
+        return core.R(False, 'multi', 'several-sources/%s' % ('+'.join(x for x in opts if x.startswith('-')) or 'default'), 'positions named %s, planted %s on %s' % (got, sorted(want), d))
+    return core.R(True, 'multi-ok', states=['multi:%d:%s' % (case['n'], ' '.join(opts))])
+
+
 def evaluate(case):
+    if case['k'] == 'multi':
+        return ev_multi(case)
     if case['k'] == 'expect':
         return ev_expect(case)
     if case['k'] == 'undef':
